@@ -25,7 +25,7 @@ ASSUMPTIONS = ["receivers within max(2 m, 0.5 % of the semi-axis) of the border,
                "a forward that must not happen (discard case) or, without SCF, a forward that must happen",
                "area size uses circle pi*a^2, ellipse pi*a*b, rectangle 4*a*b; sizes within 1e-6 relative of the maximum give no verdict"]
 EXPECTED_PROBES = ["judged-inside", "judged-outside", "near-border-no-verdict", "oversize-request", "oversize-forward", "annex-d-discard-case",
-                   "annex-d-nonarea-case", "annex-d-area-case", "rotated", "antimeridian", "neg-hemisphere", "shape:0", "shape:1", "shape:2"]
+                   "annex-d-nonarea-case", "annex-d-area-case", "moved-then-judged", "rotated", "antimeridian", "neg-hemisphere", "shape:0", "shape:1", "shape:2"]
 
 
 def _place(r, area, where):
@@ -116,6 +116,18 @@ def gen_plan(run_seed: int, tier: str) -> dict:
             pkt["common"]["hst"] = ar["shape"]
             pkt["common"]["tc"] = r.randrange(64) | (0x80 if r.random() < 0.1 else 0)
             ops.append({"op": "inject", "t": t, "frm": peer, "pkt": pkt})
+    # moving stations (own PRNG stream): receivers (and sometimes the sender) cross the area border between / right before packets,
+    # so that "inside" is decided from the position in force when the packet arrives, not from where the station started
+    r2 = random.Random(run_seed ^ 0x7A0B1E)
+    if r2.random() < 0.4:
+        geo_ts = [o["t"] for o in ops if o["op"] in ("req", "inject") and o["t"] > 1000 + 700 * n]
+        for _ in range(r2.randint(1, 6)):
+            i = r2.randrange(0, n) if r2.random() < 0.2 else r2.randrange(1, n)
+            tm = (r2.choice(geo_ts) - r2.choice([1, 50, 500, 2500])) if geo_ts and r2.random() < 0.7 else r2.randint(1000 + 700 * n, t)
+            e, nn = _place(r2, area, r2.choice(["in", "out", "edge", "in", "out"]))
+            la, lo = rc.offset_position(blat, blon, e, nn)
+            ops.append({"op": "gnss", "t": max(0, tm), "st": i, "lat": la, "lon": lo, "speed": round(r2.uniform(0, 30), 2), "track": round(r2.uniform(0, 359.9), 1)})
+        ops.sort(key=lambda o: o["t"])
     cfg = {"t0_us": 1_767_225_600_000_000 + r.randrange(0, 86_400_000) * 1000, "net_seed": r.getrandbits(32), "latency_us": [100, 1500],
            "fifo": True, "topology": links, "run_limit_us": t + 1_000_000, "fault_class": "none", "hemi": hemi, "anti": anti}
     return {"engine": ENGINE, "property": ID, "config": cfg, "stations": stations, "ops": ops}
@@ -176,6 +188,8 @@ class C07Monitor(Monitor):
         delivered = len(sim.hist.gnind) > rec["gn0"]
         my_tx = [t for t in sim.hist.tx[rec["tx0"]:] if t["st"] == st.idx and root_cause(t["cause"]) == ("rx", rec["i"])]
         verdict = rc.area_verdict(shape, area, lat, lon) if area["a"] > 0 and (shape == 0 or area["b"] > 0) else None
+        if verdict is not None and any(o["op"]["op"] == "gnss" and o["op"]["st"] == st.idx and not o["skipped"] for o in sim.hist.ops):
+            sim.probe("moved-then-judged")
         outcome = "?"
         if verdict == "inside":
             sim.probe("judged-inside")
